@@ -3,6 +3,8 @@ package verifsim
 import (
 	"encoding/json"
 	"fmt"
+	"io"
+	"log"
 	"os"
 	"runtime/debug"
 	"strconv"
@@ -56,6 +58,7 @@ func TestWorker(t *testing.T) {
 		t.Skip("not a worker invocation")
 	}
 	debug.SetGCPercent(-1)
+	log.SetOutput(io.Discard) // the client's finalizer path logs
 	profile := os.Getenv("VERIF_PROFILE")
 	tier := os.Getenv("VERIF_TIER")
 	if tier == "" {
